@@ -358,7 +358,7 @@ def run(tier):
     ck.rule = ("generated valid schemas (SDL-built and programmatic; deprecated fields/args/input fields/enum values/"
                "directives, OneOf inputs, specifiedBy, schema descriptions, adversarial texts) x option combinations of "
                "get_introspection_query (thorough: all 2^7 = 128; quick: all-on, all-off, each single option off, each "
-               "single option on and random ones, 20 per schema): the query validates and executes without errors, the "
+               "single option on and random ones, 18 per schema): the query validates and executes without errors, the "
                "result inhabits the introspection types, equals prune(full) (Python prune and extracted Coq prune on the "
                "wire-encoded JSON) and equals the extracted model introspect(enc s, o); __type(name) for every type name "
                "equals the entry of the type list; ad-hoc selections against the introspection types (random "
@@ -369,7 +369,7 @@ def run(tier):
     full_doc = parse(full_query)
     fragments_text = full_query[full_query.index("fragment FullType"):]
     lookup_query = "query L($n: String!) { __type(name: $n) { ...FullType } }\n" + fragments_text
-    n_schemas = 40 if quick else 300
+    n_schemas = 24 if quick else 160
     validated = set()
     n_model_cases = [0]
 
@@ -411,7 +411,7 @@ def run(tier):
             combos = [all_combos[0], all_combos[-1]]
             combos += [dict({k: True for k in OPTS}, **{k: False}) for k in OPTS]
             combos += [dict({k: False for k in OPTS}, **{k: True}) for k in OPTS]
-            combos += [rng.choice(all_combos) for _ in range(4)]
+            combos += [rng.choice(all_combos) for _ in range(2)]
         else:
             combos = all_combos
         enc = G.encode_schema(s, all_types=True, default_text=True)
@@ -433,23 +433,23 @@ def run(tier):
                 if errs:
                     ck.violation(key, f"the introspection query does not validate: {errs[0].message}", rep)
                     continue
-            res = graphql_sync(s, q)
-            if res.errors or res.data is None:
-                ck.violation(key, f"the introspection query executes with errors: {res.errors and res.errors[0].message}", rep)
-                continue
             try:
-                r = introspection_from_schema(s, **o)
+                r = introspection_from_schema(s, **o)   # = execute_sync of the query; raises on any execution error
             except Exception as e:  # noqa: BLE001
-                ck.violation(key, f"introspection_from_schema raised {type(e).__name__}: {e}", rep)
+                ck.violation(key, f"the introspection query executes with errors: {type(e).__name__}: {e}", rep)
                 continue
-            if r != res.data:
-                ck.violation(key, "introspection_from_schema differs from executing get_introspection_query", rep)
+            if not quick or ci < 2 or ci == i % len(combos):
+                res = graphql_sync(s, q)   # the public entry point (parse + validate + execute) gives the same
+                if res.errors or res.data != r:
+                    ck.violation(key, "graphql_sync(get_introspection_query(**o)) has errors or differs from "
+                                 f"introspection_from_schema: {res.errors and res.errors[0].message}", rep)
+                    continue
             expected = py_prune(full, o)
             ck.note_case((key0, tb), nontrivial=expected != full)
             d = json_diff(r, expected)
             if d:
                 ck.violation(key, f"result differs from the full result minus the switched-off attributes: {d}", rep)
-            e = conforms(res.data, doc.definitions[0].selection_set, s.query_type, s,
+            e = conforms(r, doc.definitions[0].selection_set, s.query_type, s,
                          {f.name.value: f for f in doc.definitions[1:]})
             if e:
                 ck.violation(key, f"result does not conform to the introspection types: {e}", rep)
